@@ -924,7 +924,7 @@ func main() {
 	rep.Coverage["evaluations"] = rep.Counter("executions")
 	rep.Coverage["distinct_nontrivial"] = rep.Counter("scenarios_nontrivial")
 	rep.Coverage["rule"] = "a case is a frame script (scenario) together with every schedule of it within the deviation bound; each execution is judged by the whole oracle (evaluations = executions); a scenario is non-trivial when in at least one of its executions the endpoints received two or more stream-level frames (HEADERS, DATA, RST_STREAM, PRIORITY, PUSH_PROMISE) through the relay"
-	rep.Coverage["bounds"] = fmt.Sprintf("%d frame scripts: all single-stream lifecycle shapes (header fragments 1..3 x priority x DATA shapes incl. padding 1/255 and empty END_STREAM frames x end by END_STREAM/trailers/RST/open) in both directions, duplex pairs, all interleavings of two (thorough: three) streams' lifecycles, transport segmentations 1/2/7 bytes and preface splits, receiver windows 0/1/4 blocking DATA with trailers and other streams' headers pending, PUSH_PROMISE with continuations, SETTINGS/PING/GOAWAY/PRIORITY, HPACK table scenarios; default schedule for pure input families and <=1 deviation for duplex/interleave/window/hpack/misc/burst in quick; +1 everywhere in thorough except the burst scenarios with 16 or more queued frames. Audit families: a cross-section of all of these with pass-through processor chains (8 chain shapes); header blocks cut at every offset 1..30 and with empty CONTINUATION frames, padded HEADERS/PUSH_PROMISE (pad 1/2/256), 37 fragmented blocks per connection; HEADERS with an empty fragment; the receiver's grant (WINDOW_UPDATE, SETTINGS_INITIAL_WINDOW_SIZE, two partial grants) at every position of a 5-frame script, both directions blocked at once, 8 streams released in reverse order; re-encoded block lengths k*16384-6..+1 (k=1,2) with priority / without / PUSH_PROMISE; SETTINGS_HEADER_TABLE_SIZE lowered with blocks in flight, raised to 8192/65536 with 6400 bytes of table in use, lowered again, set twice in one frame; extension frame types; preface sharing a write with the first frames; one single-byte read anywhere; SETTINGS with unknown/repeated identifiers; repeated/empty fields, informational responses, stream id 2^31-1; priority sections with all-zero parameters judged on the relay's output bytes", len(scen))
+	rep.Coverage["bounds"] = fmt.Sprintf("%d frame scripts: all single-stream lifecycle shapes (header fragments 1..3 x priority x DATA shapes incl. padding 1/255 and empty END_STREAM frames x end by END_STREAM/trailers/RST/open) in both directions, duplex pairs, all interleavings of two (thorough: three) streams' lifecycles, transport segmentations 1/2/7 bytes and preface splits, receiver windows 0/1/4 blocking DATA with trailers and other streams' headers pending, PUSH_PROMISE with continuations, SETTINGS/PING/GOAWAY/PRIORITY, HPACK table scenarios; default schedule for pure input families and <=1 deviation for duplex/interleave/window/hpack/misc/burst in quick; +1 everywhere in thorough except the burst scenarios with 16 or more queued frames. Audit families: a cross-section of all of these with pass-through processor chains (8 chain shapes); header blocks cut at every offset 1..30 and with empty CONTINUATION frames, padded HEADERS/PUSH_PROMISE (pad 1/2/256), 37 fragmented blocks per connection; HEADERS with an empty fragment; the receiver's grant (WINDOW_UPDATE, SETTINGS_INITIAL_WINDOW_SIZE, two partial grants) at every position of a 5-frame script, both directions blocked at once, 8 streams released in reverse order; re-encoded block lengths k*16384-6..+1 (k=1,2) with priority / without / PUSH_PROMISE; SETTINGS_HEADER_TABLE_SIZE lowered with blocks in flight, raised to 8192/65536 with 6400 bytes of table in use, lowered again, set twice in one frame; extension frame types; preface sharing a write with the first frames; one single-byte read anywhere; SETTINGS with unknown/repeated identifiers; repeated/empty fields, informational responses, stream id 2^31-1; priority sections with all-zero parameters judged on the relay's output bytes. Round 8: header table raised to 8192/65536 and lowered to 4096/0 while blocks encoded against the raised size (with and without the leading size update) are in flight, both directions, concurrent writes and a write delivered in two pieces (10 / 3000 bytes) around the lowering; one queued DATA frame of k*max-1..k*max+1 bytes (k=1..3) and 65535 bytes re-cut after the receiver lowers its max frame size from 65536 to max=16384/20000", len(scen))
 	rep.Coverage["explanation"] = "each execution runs the real h2 relay (rewritten for the scheduler, tls.Dial replaced by the vtls seam) between two frame-level endpoints with their own HPACK state"
 	rep.Assumptions = []string{"endpoints are harness peers built on x/net/http2.Framer (the same framer the relay uses)", "K <= 3 streams in the interleaving families (8 in the grant family, 37 sequential ones in the cut family)", "the length of a re-encoded header block is predicted with a fresh hpack.Encoder (the relay uses the same encoder implementation)"}
 	rep.Finish()
